@@ -163,6 +163,13 @@ def as_pygt(v):
     return None
 
 
+class HashV:
+    """a hashlib object fed with the (model) bytes the program feeds it"""
+
+    def __init__(self, h):
+        self.h = h
+
+
 class Deque(list):
     """collections.deque as a list with the deque methods"""
 
@@ -187,6 +194,7 @@ SAFE_METHODS = {
     Deque: {"append", "extend", "pop", "insert", "index", "copy", "count", "reverse", "remove", "clear"},
     dict: {"get", "items", "keys", "values", "pop", "setdefault", "update", "copy"},
     set: {"add", "update", "discard", "remove", "copy", "union", "intersection", "difference", "issubset"},
+    bytes: {"startswith", "endswith", "decode", "split", "splitlines", "strip", "count", "find", "hex", "join"},
     str: {"startswith", "endswith", "strip", "lstrip", "rstrip", "lower", "upper", "casefold", "isspace", "split", "join", "replace",
           "find", "format", "rpartition", "partition", "count", "splitlines", "isdigit", "removeprefix", "removesuffix", "rfind",
           "index", "isalpha", "isalnum", "title", "capitalize", "rsplit", "zfill", "ljust", "rjust", "center", "expandtabs"},
@@ -209,6 +217,14 @@ class MiniInterp:
     # ------------------------------------------------------------------ entry
     def call(self, fi: FuncInfo, args: list, kwargs: dict | None = None, self_obj=None):
         kwargs = kwargs or {}
+        memo_key = None
+        if any((attr_chain(d.func if isinstance(d, ast.Call) else d) or "").split(".")[-1] in ("lru_cache", "cache") for d in fi.node.decorator_list):
+            def kk(v):
+                return v.uid if isinstance(v, Sym) else repr(v)
+            memo_key = (fi.qual, tuple(kk(a) for a in args), tuple(sorted((k, kk(v)) for k, v in kwargs.items())), kk(self_obj) if self_obj is not None else None)
+            store = self.__dict__.setdefault("_memo", {})
+            if memo_key in store:
+                return store[memo_key]
         self.depth += 1
         if self.depth > self.max_depth:
             self.depth -= 1
@@ -247,14 +263,17 @@ class MiniInterp:
             is_gen = any(isinstance(x, (ast.Yield, ast.YieldFrom)) for x in fi.walk())
             if is_gen:
                 env["__yield__"] = []
+            result = None
             try:
                 self.block(fi.node.body, env, fi)
             except _Ret as r:
                 if not is_gen:
-                    return r.v
+                    result = r.v
             if is_gen:
-                return _Iter(env["__yield__"])     # evaluated eagerly: finite inputs only
-            return None
+                result = _Iter(env["__yield__"])     # evaluated eagerly: finite inputs only
+            if memo_key is not None:
+                self._memo[memo_key] = result
+            return result
         finally:
             self.depth -= 1
 
@@ -958,6 +977,17 @@ class MiniInterp:
                 if m is not None:
                     return BoundFunc(m, me)
             return T("method", Sym("ext:super", _open=True), attr)
+        if isinstance(obj, HashV) and attr in ("update", "hexdigest", "digest", "copy"):
+            def hm(a, k, obj=obj, attr=attr):
+                if attr == "update":
+                    if not isinstance(a[0], (bytes, bytearray)):
+                        raise Unknown("hash update with a non-bytes value")
+                    obj.h.update(a[0])
+                    return None
+                if attr == "copy":
+                    return HashV(obj.h.copy())
+                return getattr(obj.h, attr)()
+            return PyFn("hash." + attr, hm)
         if isinstance(obj, Deque) and attr in ("appendleft", "popleft", "extendleft"):
             def dq(a, k, obj=obj, attr=attr):
                 if attr == "appendleft":
@@ -975,6 +1005,10 @@ class MiniInterp:
                         "pop", "clear", "issuperset"):
                 return T("iset", obj, attr)
             raise Unknown(f"set method {attr}")
+        if isinstance(obj, BoundFunc) and attr in ("__name__", "__qualname__"):
+            return obj.fi.name
+        if isinstance(obj, Closure) and attr == "__name__":
+            return getattr(obj.node, "name", "<lambda>")
         t = type(obj)
         if self.hook and t not in SAFE_METHODS:
             r = self.hook(self, "getattr", obj, attr, None, node, fi)
@@ -1065,7 +1099,8 @@ class MiniInterp:
                     return hits[0]
                 del obj[hits[0]]
                 return None
-            args = [a.rest() if isinstance(a, _Iter) else list(a.xs) if isinstance(a, ISet) else a for a in args]
+            if attr in ("join", "extend", "update", "fromkeys"):
+                args = [a.rest() if isinstance(a, _Iter) else list(a.xs) if isinstance(a, ISet) else a for a in args]
             try:
                 if isinstance(obj, dict) and attr in ("get", "pop", "setdefault") and args:
                     args = [self.key(args[0])] + args[1:]
@@ -1095,6 +1130,14 @@ class MiniInterp:
             r = self.stdlib(full, base, args, kwargs, n)
             if r is not NotImplemented:
                 return r
+            if mod == "hashlib" and base in ("md5", "sha1", "sha256", "blake2b"):
+                import hashlib as _hl
+                h = HashV(getattr(_hl, base)())
+                if args:
+                    if not isinstance(args[0], (bytes, bytearray)):
+                        raise Unknown("hash of a non-bytes value")
+                    h.h.update(args[0])
+                return h
             if mod == "json" and base in ("dumps", "loads"):
                 import json as _json
 
@@ -1395,9 +1438,9 @@ class MiniInterp:
             if name == "range":
                 return range(*args)
             if name == "enumerate":
-                return [(i + (args[1] if len(args) > 1 else kwargs.get("start", 0)), x) for i, x in enumerate(self.iterate(args[0]))]
+                return _Iter([(i + (args[1] if len(args) > 1 else kwargs.get("start", 0)), x) for i, x in enumerate(self.iterate(args[0]))])
             if name == "zip":
-                return list(zip(*[self.iterate(a) for a in args]))
+                return _Iter(list(zip(*[self.iterate(a) for a in args])))
             if name in ("min", "max", "sum", "any", "all", "abs", "int", "bool", "str", "float", "round", "divmod"):
                 a2 = [self.iterate(a) if isinstance(a, _Iter) else a for a in args]
                 if name in ("any", "all"):
@@ -1435,7 +1478,9 @@ class MiniInterp:
             if name in ("set", "frozenset"):
                 return self.mkset(self.iterate(args[0]) if args else [])
             if name == "dict":
-                return dict(args[0]) if args else dict(kwargs)
+                if args and not isinstance(args[0], dict):
+                    return {self.key(k): v for k, v in (tuple(self.iterate(p)) for p in self.iterate(args[0]))} | dict(kwargs)
+                return (dict(args[0]) | dict(kwargs)) if args else dict(kwargs)
             if name == "sorted":
                 xs = self.iterate(args[0])
                 keyf = kwargs.get("key")
@@ -1446,11 +1491,20 @@ class MiniInterp:
                 keyed.sort(key=lambda t: t[0], reverse=rev)
                 return [x for _, _, x in keyed]
             if name == "reversed":
-                return list(reversed(self.iterate(args[0])))
+                return _Iter(list(reversed(self.iterate(args[0]))))
             if name == "filter":
                 return _Iter([x for x in self.iterate(args[1]) if self.truth(x if args[0] is None else self.apply(args[0], [x]))])
             if name == "map":
                 return _Iter([self.apply(args[0], [x]) for x in self.iterate(args[1])])
+            if name == "iter" and len(args) == 2:
+                out = []
+                while True:
+                    self.tick()
+                    v = self.apply(args[0], [])
+                    if self.equal(v, args[1]):
+                        break
+                    out.append(v)
+                return _Iter(out)
             if name == "iter":
                 return _Iter(self.iterate(args[0]))
             if name == "next":
